@@ -107,6 +107,15 @@ Definition watch_escalated (rv : option Z) (f : fault) : phase :=
 Definition adv (rv orv : option Z) : option Z :=
   match orv with Some v => Some v | None => rv end.
 
+Definition orv_eqb (a b : option Z) : bool :=
+  match a, b with Some x, Some y => Z.eqb x y | None, None => true | _, _ => false end.
+
+Definition etype_eqb (a b : etype) : bool :=
+  match a, b with
+  | TAdded, TAdded | TModified, TModified | TDeleted, TDeleted | TBookmark, TBookmark => true
+  | _, _ => false
+  end.
+
 Definition swallowed_end (e : ending) : bool :=
   match e with EClosed => false | _ => true end.
 
@@ -132,16 +141,16 @@ Definition cstep (s : cstate) (l : label) : option cstate :=
       else Some (mk (list_escalated f) pa st)
   | LListOk orv items, PListWait _ => Some (mk (PItems orv items) pa st)
   | LYield (YItem n v), PItems rv ((n', v') :: rest) =>
-      if String.eqb n n' && match v, v' with Some a, Some b => Z.eqb a b | None, None => true | _, _ => false end
+      if String.eqb n n' && orv_eqb v v'
       then Some (mk (PItems rv rest) pa st) else None
   | LYield YListed, PItems rv [] => Some (mk (PLoop rv) pa st)
   (* ---- the watch loop *)
   | LReqWatch since, PLoop rv =>
       if st then None
-      else if match since, rv with Some a, Some b => Z.eqb a b | None, None => true | _, _ => false end
+      else if orv_eqb since rv
            then Some (mk (PWatchWait rv 0) pa st) else None
   | LReqWatch since, PWatch rv k =>
-      if match since, rv with Some a, Some b => Z.eqb a b | None, None => true | _, _ => false end
+      if orv_eqb since rv
       then Some (mk (PWatchWait rv k) pa st) else None
   | LFault f, PWatchWait rv k =>
       if retriable f && Nat.ltb k retries then Some (mk (PWatch rv (S k)) pa st)
@@ -163,10 +172,7 @@ Definition cstep (s : cstate) (l : label) : option cstate :=
   | LYield y, PGot rv y' =>
       match y, y' with
       | YEv t v n, YEv t' v' n' =>
-          if match t, t' with TAdded, TAdded | TModified, TModified | TDeleted, TDeleted | TBookmark, TBookmark => true
-                            | _, _ => false end
-             && String.eqb n n'
-             && match v, v' with Some a, Some b => Z.eqb a b | None, None => true | _, _ => false end
+          if etype_eqb t t' && String.eqb n n' && orv_eqb v v'
           then Some (mk (POpen rv) pa st) else None
       | _, _ => None
       end
@@ -224,7 +230,7 @@ Fixpoint snapshot_of (l : list change) (seen : list string) : list item :=
 
 Definition item_eqb (a b : item) : bool :=
   String.eqb (fst a) (fst b) &&
-  match snd a, snd b with Some x, Some y => Z.eqb x y | None, None => true | _, _ => false end.
+  orv_eqb (snd a) (snd b).
 
 Fixpoint mem_item (a : item) (l : list item) : bool :=
   match l with [] => false | b :: l' => item_eqb a b || mem_item a l' end.
@@ -241,12 +247,6 @@ Fixpoint next_after (l : list change) (v : Z) : option change :=
                | Some d => Some d
                | None => if Z.ltb v (c_rv c) then Some c else None
                end
-  end.
-
-Definition etype_eqb (a b : etype) : bool :=
-  match a, b with
-  | TAdded, TAdded | TModified, TModified | TDeleted, TDeleted | TBookmark, TBookmark => true
-  | _, _ => false
   end.
 
 Inductive wlabel :=
